@@ -101,7 +101,7 @@ mod harnesses {
     use super::*;
 
     #[kani::proof]
-    fn q_c05_channel_base_cases() {
+    fn q_c05_c11_channel_base_cases() {
         let owner = any_conn();
         let c = Channel::with_claimed_sender(owner);
         assert!(inv(&c));
@@ -113,7 +113,7 @@ mod harnesses {
     }
 
     #[kani::proof]
-    fn q_c05_channel_send_item() {
+    fn q_c05_c11_channel_send_item() {
         let mut c = any_channel();
         let s0 = claimed(&c.sender);
         let r0 = claimed(&c.receiver);
@@ -166,7 +166,7 @@ mod harnesses {
     }
 
     #[kani::proof]
-    fn q_c05_channel_add_capacity() {
+    fn q_c05_c11_channel_add_capacity() {
         let mut c = any_channel();
         let s0 = claimed(&c.sender);
         let r0 = claimed(&c.receiver);
@@ -209,7 +209,7 @@ mod harnesses {
     }
 
     #[kani::proof]
-    fn q_c05_channel_claim() {
+    fn q_c05_c11_channel_claim() {
         let mut c = any_channel();
         let s0 = claimed(&c.sender);
         let r0 = claimed(&c.receiver);
@@ -258,7 +258,7 @@ mod harnesses {
     /// entered only when `check_close` said Ok (request path), and the channel is removed from the
     /// map when `close` returns `None` (so the invariant is required only when it returns `Some`).
     #[kani::proof]
-    fn q_c05_channel_close() {
+    fn q_c05_c11_channel_close() {
         let mut c = any_channel();
         let s0 = claimed(&c.sender);
         let r0 = claimed(&c.receiver);
@@ -299,7 +299,7 @@ mod harnesses {
     /// being closed is claimed by the given owner, or (ReceiverUnclaimed path) the receiver is
     /// unclaimed and the sender claimed.
     #[kani::proof]
-    fn q_c05_channel_close_internal_sites() {
+    fn q_c05_c11_channel_close_internal_sites() {
         let mut c = any_channel();
         let end = any_end();
         let this = match end {
@@ -319,7 +319,7 @@ mod harnesses {
     }
 
     #[kani::proof]
-    fn q_c05_channel_close_receiver_unclaimed_path() {
+    fn q_c05_c11_channel_close_receiver_unclaimed_path() {
         // send_item error ReceiverUnclaimed: close(Receiver) with owner None, then close(Sender).
         let mut c = any_channel();
         let who = any_conn();
